@@ -65,15 +65,19 @@ var targets = []target{
 		return true
 	}},
 	{"WeightedMerkleTrie.Deserialize", func(b []byte) bool {
-		t := wmpt.New(nil, dev.NewStore())
-		if err := t.Deserialize(b); err != nil {
-			return false
+		// a partial trie is built with or without a store behind it (wmpt.New(nil, nil) is the documented way)
+		acc := false
+		for _, t := range []*wmpt.WeightedMerkleTrie{wmpt.New(nil, dev.NewStore()), wmpt.New(nil, nil)} {
+			if err := t.Deserialize(b); err != nil {
+				continue
+			}
+			acc = true
+			_ = t.Root()
+			_ = t.Weight()
+			_, _ = t.GetPath(nil) // re-encoding what was accepted
+			_, _, _ = t.GetBlockProof(1)
 		}
-		_ = t.Root()
-		_ = t.Weight()
-		_, _ = t.GetPath(nil)
-		_, _, _ = t.GetBlockProof(1)
-		return true
+		return acc
 	}},
 	{"WeightedMerkleTrie.VerifyBlockProof", func(b []byte) bool {
 		ok := false
